@@ -18,8 +18,8 @@ EXTENDS Flux2Ops, Json, IOUtils, TLCExt
 
 Traces == JsonDeserialize(IOEnv.TRACE_FILE)
 
-VARIABLES tid, l
-vars == <<tid, l>>
+VARIABLES tid, l, cache, base
+vars == <<tid, l, cache, base>>
 
 Fails(name, cond) == IF cond THEN {} ELSE {name}
 AllOnes(mask) == \A r \in 1..Len(mask) : mask[r] = 1
@@ -36,15 +36,17 @@ Res(scope, decided, fails, tags, exp) ==
 \*          outcome ("ok" | "exc:<class>" | "crash:<signal>"), status, objk ("num" | "nan"), obj, v]
 RanOK(ev) == ev.outcome = "ok" /\ ev.status = "optimal" /\ ev.objk = "num"
 
-JudgePfba(M, ev) ==
+\* F = Feasible(KnockOut(M, ev.ko)), carried in the state variable `cache` (computed once per
+\* knock-out state of a trace)
+JudgePfba(M, ev, F) ==
   LET KO == KnockOut(M, MaskSet(ev.ko))
       Me == IF ev.useobj THEN WithObjective(KO, ev.objc, M.dir) ELSE KO
       full == AllOnes(ev.sub)
   IN
-  IF ~(IsUnitNetwork(Me) /\ HasOpt(Me) /\ InScope_pfba(Me, ev.num, ev.den)) THEN Res("out", FALSE, {}, {}, <<>>)
-  ELSE LET dec == Decidable_pfba(Me, ev.num, ev.den)
-           opt == Opt(Me)
-           ml1 == MinL1(Me, ev.num, ev.den) IN
+  IF ~(IsUnitNetwork(Me) /\ InScope_pfbaF(F, Me, ev.num, ev.den)) THEN Res("out", FALSE, {}, {}, <<>>)
+  ELSE LET dec == Decidable_pfbaF(F, Me, ev.num, ev.den)
+           opt == OptF(F, Me)
+           ml1 == MinL1In(FracSetIn(F, Me, ev.num, ev.den)) IN
        Res("in", dec,
            IF ~RanOK(ev) THEN {"outcome"}
            ELSE Fails("bounds", FxInBoundsOn(Me, ev.v, ev.sub))
@@ -65,12 +67,11 @@ AdjTags(M, ev, F) ==
            RoomCapBinding(F, M.c, IF ev.refgiven THEN ev.refobj ELSE MinL1In(FracSetIn(F, M, 1, 1)))
         THEN {"room_cap_binding"} ELSE {})
 
-JudgeAdjust(M, ev) ==
+JudgeAdjust(M, ev, F, wt) ==
   LET KO == KnockOut(M, MaskSet(ev.ko))
-      F == Feasible(KO)
       n == NR(M)
   IN
-  IF ~(IsUnitNetwork(M) /\ HasOpt(M) /\ F # {} /\ (ev.refgiven => ev.ref \in ArgOpt(M)))
+  IF ~(IsUnitNetwork(M) /\ wt.hasopt /\ F # {} /\ (ev.refgiven => ev.ref \in wt.argopt))
   THEN Res("out", FALSE, {}, {}, <<>>)
   ELSE
   LET dec == Decidable_adjust(M)
@@ -104,22 +105,236 @@ JudgeAdjust(M, ev) ==
              tags, lr)
        [] OTHER -> Res("out", FALSE, {}, {}, <<>>)
 
-JudgeC09(M, ev) == IF ev.k = "pfba" THEN JudgePfba(M, ev) ELSE JudgeAdjust(M, ev)
+JudgeC09(M, ev, F, wt) == IF ev.k = "pfba" THEN JudgePfba(M, ev, F) ELSE JudgeAdjust(M, ev, F, wt)
 
-Judge(t, ev) == CASE t.prop = "C09" -> JudgeC09(t.M, ev)
-                  [] OTHER -> Res("out", FALSE, {}, {}, <<>>)
+\* ------------------------------------------------------------------ C06
+\* event = [k ("srd" "sgd" "drd" "dgd" "ess_r" "ess_g"), method ("fba" | "lmoma"), l1, l1given, l2, l2given
+\*          (positions in M.rxns / M.genes), byobj, ref, refgiven, refobj, tdefault, tnum, tden,
+\*          outcome, rows : Seq([ids : Seq(position), gk ("num" | "nan"), growth, status]),
+\*          accessor (BOOLEAN: the `knockout` accessor returns each row for its own id set),
+\*          ess : Seq(position)]
+EntityOf(k) == IF k \in {"srd", "drd", "ess_r"} THEN "reaction" ELSE "gene"
+JudgeDel(M, ev, wt) ==
+  LET ent == EntityOf(ev.k)
+      U == Universe(M, ent)
+      all == [i \in 1..Cardinality(U) |-> i]
+      La == IF ev.l1given THEN ev.l1 ELSE all
+      Lb == IF ev.l2given THEN ev.l2 ELSE La
+      combos == IF ev.k \in {"drd", "dgd"} THEN Combinations(La, Lb) ELSE Singles(La)
+      rowsets == {SeqSet(ev.rows[i].ids) : i \in 1..Len(ev.rows)}
+      moma == ev.method = "lmoma"
+      \* the reference of the MOMA deletions: given, or pFBA of the model when that is a single point
+      pf == IF moma /\ ~ev.refgiven /\ wt.hasopt THEN PfbaPoints(wt.F, M) ELSE {}
+      ref == IF ev.refgiven THEN ev.ref ELSE IF Cardinality(pf) = 1 THEN CHOOSE v \in pf : TRUE ELSE <<>>
+      inscope == IsUnitNetwork(M) /\ (moma => (wt.hasopt /\ (ev.refgiven => ev.ref \in wt.argopt)))
+      dec == ~moma \/ (AllFinite(M) /\ ref # <<>>)
+      rowfails(row) ==
+        LET e == RowExpect(M, ent, SeqSet(row.ids)) IN
+        IF ~moma
+        THEN Fails("status_optimal_iff_optimum", (row.status = "optimal") = e.hasopt)
+             \cup Fails("growth", IF e.hasopt THEN row.gk = "num" /\ Near(row.growth, e.opt * Scale, Tol)
+                                  ELSE row.gk = "nan")
+        ELSE Fails("status_optimal_iff_feasible", (row.status = "optimal") = (e.F # {}))
+             \cup (IF e.F = {} \/ ~dec THEN {}
+                   ELSE LET gi == GrowthIntervalIn(e.F, ref, M.c) IN
+                        Fails("growth_in_argmin_face", row.gk = "num" /\ row.growth >= gi[1] * Scale - FxObjTol(M)
+                                                       /\ row.growth <= gi[2] * Scale + FxObjTol(M)))
+      tags == (IF M.dir = "min" THEN {"dir_min"} ELSE {}) \cup (IF moma THEN {"method_lmoma"} ELSE {})
+              \cup (IF ~wt.hasopt THEN {"model_without_optimum"} ELSE {})
+              \cup (IF moma /\ ~ev.refgiven THEN {"default_reference"} ELSE {})
+              \cup (IF ~AllFinite(M) THEN {"infinite_bounds"} ELSE {})
+  IN
+  IF ~inscope THEN Res("out", FALSE, {}, {}, <<>>)
+  ELSE IF ev.outcome # "ok" THEN Res("in", dec, {"outcome"}, tags, <<>>)
+  ELSE Res("in", dec,
+           Fails("rows_are_the_combinations", rowsets = combos)
+           \cup Fails("one_row_each", Len(ev.rows) = Cardinality(combos))
+           \cup Fails("knockout_accessor", ev.accessor)
+           \cup UNION {rowfails(ev.rows[i]) : i \in {i \in 1..Len(ev.rows) : SeqSet(ev.rows[i].ids) \in combos}},
+           tags, <<Cardinality(combos)>>)
+
+JudgeEss(M, ev, wt) ==
+  LET ent == EntityOf(ev.k)
+      tn == IF ev.tdefault THEN wt.opt ELSE ev.tnum
+      td == IF ev.tdefault THEN 100 ELSE ev.tden
+      \* a threshold that coincides with an attainable growth value would be decided by rounding noise
+      tie == \E x \in Universe(M, ent) : LET e == RowExpect(M, ent, {x}) IN e.hasopt /\ e.opt * td = tn
+  IN
+  IF ~(IsUnitNetwork(M) /\ wt.hasopt) THEN Res("out", FALSE, {}, {}, <<>>)
+  ELSE IF ev.outcome # "ok" THEN Res("in", TRUE, {"outcome"}, {}, <<>>)
+  ELSE LET exp == Essential(M, ent, tn, td) IN
+       Res("in", ~tie, Fails("essential_set", tie \/ SeqSet(ev.ess) = exp),
+           (IF M.dir = "min" THEN {"dir_min"} ELSE {}) \cup (IF ev.tdefault THEN {"default_threshold"} ELSE {})
+           \cup (IF ~AllFinite(M) THEN {"infinite_bounds"} ELSE {}), <<exp>>)
+
+JudgeC06(M, ev, wt) == IF ev.k \in {"ess_r", "ess_g"} THEN JudgeEss(M, ev, wt) ELSE JudgeDel(M, ev, wt)
+
+\* ------------------------------------------------------------------ C18
+\* event = [k ("getmed" "setmed" "setcur" "minmed"), d, g, exports, mc, open, opentrue,
+\*          outcome, lb, ub (bounds after the call; Inf / NegInf tokens), med (medium read back after the
+\*          call: value, Inf, or Absent per reaction),
+\*          none (BOOLEAN), cols : Seq(Seq(fixed point)) (returned media, oriented as import, 0 = not listed),
+\*          suff : Seq([sk ("num" | "unb" | "inf"), sv])  (maximal objective with that medium applied)]
+\* cur = [lb, ub]: the bounds before the call (the medium calls of a trace act on one model object)
+JudgeMed(M, ev, cur) ==
+  LET Mc == [M EXCEPT !.lb = cur.lb, !.ub = cur.ub]
+      Obs == [M EXCEPT !.lb = ev.lb, !.ub = ev.ub]
+      d == IF ev.k = "setcur" THEN GetMedium(Mc) ELSE ev.d
+      Ex == Exchanges(M)
+      tags == (IF \E r \in Ex : ExportWritten(M, r) THEN {"has_export_written"} ELSE {})
+              \cup (IF \E r \in Ex : ~ExportWritten(M, r) THEN {"has_import_written"} ELSE {})
+  IN
+  IF ev.k = "getmed"
+  THEN Res("in", TRUE, IF ev.outcome # "ok" THEN {"outcome"}
+                       ELSE Fails("readback", ev.med = GetMedium(Mc))
+                            \cup Fails("bounds_unchanged", ev.lb = cur.lb /\ ev.ub = cur.ub), tags, <<GetMedium(Mc)>>)
+  ELSE IF ~InScope_setmedium(Mc, d) THEN Res("out", FALSE, {}, {}, <<>>)
+  ELSE IF ev.outcome # "ok" THEN Res("in", TRUE, {"outcome"}, tags, <<>>)
+  ELSE Res("in", TRUE,
+           Fails("import_bound_set", \A r \in Ex : d[r] # Absent => ImportBound(Obs, r) = d[r])
+           \cup Fails("others_closed", \A r \in Ex : d[r] = Absent => ImportBound(Obs, r) = MinOf(0, ImportBound(Mc, r)))
+           \cup Fails("export_bounds_untouched", \A r \in Ex : IF ExportWritten(M, r) THEN ev.ub[r] = cur.ub[r]
+                                                                ELSE ev.lb[r] = cur.lb[r])
+           \cup Fails("other_reactions_untouched", \A r \in RIdx(M) \ Ex : ev.lb[r] = cur.lb[r] /\ ev.ub[r] = cur.ub[r])
+           \cup Fails("readback", ev.med = PositivePart(M, d)),
+           tags, <<SetMedium(Mc, d).lb, SetMedium(Mc, d).ub>>)
+
+PosEntries(col) == {r \in 1..Len(col) : col[r] > Tol}
+JudgeMinMed(M, ev, F0) ==
+  LET Mo == Opened(M, ev.open)
+      F == IF ev.open = 0 THEN F0 ELSE Feasible(Mo)
+      Ex == Exchanges(M)
+      can == CanReach(F, Mo, ev.g)
+      Rch == Reaching(F, Mo, ev.g)
+      decT == Decidable_minmedium(F, Mo, ev.g)
+      decC == Decidable_mincomponents(Mo)
+      inf == \E r \in Ex : ~FinLB(Mo, r) \/ ~FinUB(Mo, r)
+      tags == (IF inf THEN {"infinite_exchange_bound"} ELSE {}) \cup (IF ev.mc >= 1 THEN {"minimize_components"} ELSE {})
+              \cup (IF ev.open > 0 \/ ev.opentrue THEN {"open_exchanges"} ELSE {}) \cup (IF ev.exports THEN {"exports"} ELSE {})
+      colfails(i) ==
+        LET col == ev.cols[i] sf == ev.suff[i] IN
+        Fails("only_exchanges_listed", \A r \in RIdx(M) \ Ex : col[r] = 0)
+        \cup Fails("imports_only", ev.exports \/ \A r \in RIdx(M) : col[r] >= 0)
+        \cup Fails("sufficient", sf.sk = "unb" \/ (sf.sk = "num" /\ sf.sv >= ev.g * Scale - Tol))
+        \cup (IF ev.opentrue THEN {}
+              ELSE Fails("within_import_bounds", \A r \in Ex : ImportBound(Mo, r) >= Inf \/ col[r] <= MaxOf(ImportBound(Mo, r), 0) * Scale + Tol)
+                   \cup (IF ev.mc = 0
+                         THEN Fails("minimal_total_import",
+                                    (decT /\ Rch # {}) => Near(SumSeq([r \in RIdx(M) |-> MaxOf(col[r], 0)]),
+                                                               MinMediumIn(Rch, Mo) * Scale, NTol(M)))
+                         ELSE Fails("minimal_components",
+                                    (decC /\ Rch # {}) => Cardinality(PosEntries(col)) = MinComponentsIn(Rch, Mo))))
+  IN
+  IF ~(IsUnitNetwork(M) /\ Ex # {}) THEN Res("out", FALSE, {}, {}, <<>>)
+  \* the component count uses the largest exchange bound as big-M: an infinite one is refused (ValueError);
+  \* before the repair GLPK aborted the interpreter (finding F33)
+  ELSE IF inf /\ ev.mc >= 1 /\ ~ev.opentrue
+  THEN Res("in", TRUE, Fails("refuses_infinite_exchange_bound", ev.outcome = "exc:ValueError"), tags, <<>>)
+  ELSE IF ev.outcome # "ok" THEN Res("in", TRUE, {"outcome"}, tags, <<>>)
+  ELSE IF ev.opentrue
+  THEN Res("in", FALSE, IF ev.none THEN {} ELSE UNION {colfails(i) : i \in 1..Len(ev.cols)}, tags, <<>>)
+  ELSE Res("in", (ev.mc = 0 /\ decT) \/ (ev.mc >= 1 /\ decC) \/ ~can,
+           Fails("none_iff_no_medium_suffices", ev.none = ~can)
+           \cup (IF ev.none \/ ~can THEN {}
+                 ELSE Fails("number_of_media", Len(ev.cols) >= 1 /\ Len(ev.cols) <= MaxOf(1, ev.mc))
+                      \cup UNION {colfails(i) : i \in 1..Len(ev.cols)}),
+           tags, IF can /\ Rch # {} THEN <<MinMediumIn(Rch, Mo), MinComponentsIn(Rch, Mo)>> ELSE <<>>)
+
+\* ------------------------------------------------------------------ C20
+\* event = [k ("model" "met" "rxn"), idx, solgiven, sol, fvak ("none" "frame" "float"), fnum, fden, frame,
+\*          scaled, outcome, plus, minus : Seq([rxn, met, flux, lo, hi, pk ("num" "nan" "none"), pct]),
+\*          objk, obj, fluxk, flux, lo, hi  (reaction summary / to_frame), rendered, rexc]
+RowsOf(side) == {side[i] : i \in 1..Len(side)}
+JudgeSum(t, ev, wt) ==
+  LET M == IF ev.scaled THEN t.MS ELSE t.M
+      F == wt.F
+      pf == IF ~ev.solgiven /\ wt.hasopt THEN PfbaPoints(F, M) ELSE {}
+      known == ev.solgiven \/ Cardinality(pf) = 1
+      sol == IF ev.solgiven THEN ev.sol ELSE IF known THEN CHOOSE v \in pf : TRUE ELSE <<>>
+      fl == ev.fvak = "float"
+      decR == ~fl \/ (~ev.scaled /\ wt.hasopt /\ Decidable_pfbaF(F, M, ev.fnum, ev.fden))
+      X == FracSetIn(F, M, ev.fnum, ev.fden)
+      rng == IF ev.fvak = "none" THEN <<>> ELSE IF ev.fvak = "frame" THEN ev.frame
+             ELSE IF decR THEN [r \in RIdx(M) |-> RangeIn(X, r)] ELSE <<>>
+      hasr == ev.fvak # "none"
+      obs == RowsOf(ev.plus) \cup RowsOf(ev.minus)
+      want == IF ev.k = "model" THEN Boundary(M) ELSE {r \in RIdx(M) : M.S[r][ev.idx] # 0}
+      exprow(r) == SummaryRow(M, sol, rng, r, IF ev.k = "model" THEN MetOf(M, r) ELSE ev.idx)
+      tot(side) == SumSeq([i \in 1..Len(side) |-> Abs(side[i].flux)])
+      pctsum(side) == SumSeq([i \in 1..Len(side) |-> side[i].pct])
+      n == NR(M)
+      scope == IsUnitNetwork(t.M) /\ wt.hasopt /\ (fl => (~ev.scaled /\ InScope_pfbaF(F, M, ev.fnum, ev.fden)))
+      tags == (IF ~ev.solgiven THEN {"default_solution"} ELSE {}) \cup (IF hasr THEN {"fva_" \o ev.fvak} ELSE {})
+              \cup (IF ev.scaled THEN {"non_unit_coefficients"} ELSE {})
+  IN
+  IF ~scope THEN Res("out", FALSE, {}, {}, <<>>)
+  ELSE IF ev.k = "rxn"
+  THEN LET below == ev.fluxk = "num" /\ Abs(ev.flux) < Tol /\ (~hasr \/ (Abs(ev.lo) < Tol /\ Abs(ev.hi) < Tol)) IN
+       Res("in", known /\ decR,
+           IF ev.outcome # "ok" THEN {"outcome"}
+           ELSE Fails("flux", known => (ev.fluxk = "num" /\ Near(ev.flux, sol[ev.idx] * Scale, Tol)))
+                \cup Fails("range", (hasr /\ rng # <<>>) => (Near(ev.lo, rng[ev.idx][1] * Scale, Tol) /\ Near(ev.hi, rng[ev.idx][2] * Scale, Tol)))
+                \cup Fails("renders", ev.rendered),
+           tags \cup (IF below THEN {"reaction_flux_below_threshold"} ELSE {}), <<>>)
+  ELSE
+  Res("in", known /\ decR,
+      IF ev.outcome # "ok" THEN {"outcome"}
+      ELSE Fails("each_listed_exactly_once", {x.rxn : x \in obs} = want /\ Len(ev.plus) + Len(ev.minus) = Cardinality(want))
+           \cup Fails("renders", ev.rendered)
+           \cup (IF ev.k = "model"
+                 THEN Fails("objective_value", ev.objk = "num" /\
+                              Near(ev.obj, (IF known THEN Dot(M.c, sol) ELSE wt.opt) * Scale, FxObjTol(M)))
+                      \cup Fails("metabolite", \A x \in obs : x.rxn \in want => x.met = MetOf(M, x.rxn))
+                 ELSE Fails("totals_balance", Near(tot(ev.plus), tot(ev.minus), Tol + 2 * n))
+                      \cup Fails("percentages_sum_to_one",
+                                 \A side \in {ev.plus, ev.minus} : tot(side) > Tol + n => Near(pctsum(side), Scale, n + 1))
+                      \cup Fails("percentage_is_share",
+                                 \A side \in {ev.plus, ev.minus} : LET T == tot(side) IN
+                                    (known /\ T > Scale \div 2) => \A x \in RowsOf(side) :
+                                       x.pk = "num" /\ Near(x.pct * (T \div Scale), Abs(x.flux), (T \div Scale) + n + 1)))
+           \cup (IF ~known THEN {}
+                 ELSE Fails("side", \A x \in RowsOf(ev.plus) : x.rxn \in want => OnPlusSide(exprow(x.rxn)))
+                      \cup Fails("side", \A x \in RowsOf(ev.minus) : x.rxn \in want => ~OnPlusSide(exprow(x.rxn)))
+                      \cup Fails("flux_times_coefficient", \A x \in obs : x.rxn \in want => Near(x.flux, exprow(x.rxn).flux * Scale, Tol)))
+           \cup (IF ~(known /\ hasr /\ rng # <<>>) THEN {}
+                 ELSE Fails("range_scaled", \A x \in obs : x.rxn \in want =>
+                               (Near(x.lo, exprow(x.rxn).lo * Scale, Tol) /\ Near(x.hi, exprow(x.rxn).hi * Scale, Tol)))),
+      tags, <<>>)
+
+Judge(t, ev, F, wt) == CASE t.prop = "C09" -> JudgeC09(t.M, ev, F, wt)
+                         [] t.prop = "C06" -> JudgeC06(t.M, ev, wt)
+                         [] t.prop = "C20" -> JudgeSum(t, ev, wt)
+                         [] OTHER -> Res("out", FALSE, {}, {}, <<>>)
 
 \* ------------------------------------------------------------------ behaviour
-Init == tid \in 1..Len(Traces) /\ l = 0
+\* cache = [ko, F] : the feasible lattice of the current knock-out state;  base = facts about the model
+\* before knock-out, computed once per trace: [hasopt, argopt]
+WTFacts(M) == LET F == Feasible(M) h == IsUnitNetwork(M) /\ HasOptF(F, M) IN
+              [hasopt |-> h, argopt |-> IF h THEN ArgOptF(F, M) ELSE {}, opt |-> IF h THEN OptF(F, M) ELSE 0, F |-> F]
+NoKO(M) == [r \in RIdx(M) |-> 0]
+
+Init ==
+  /\ tid \in 1..Len(Traces)
+  /\ l = 0
+  /\ base = WTFacts(Traces[tid].M)
+  /\ cache = IF Traces[tid].prop = "C18" THEN [lb |-> Traces[tid].M.lb, ub |-> Traces[tid].M.ub]
+             ELSE [ko |-> NoKO(Traces[tid].M), F |-> base.F]
 
 Next ==
   /\ l < Len(Traces[tid].events)
-  /\ LET t == Traces[tid] ev == t.events[l + 1] j == Judge(t, ev) IN
+  /\ LET t == Traces[tid] ev == t.events[l + 1]
+         c2 == IF t.prop = "C18" THEN (IF ev.k = "minmed" \/ ev.outcome # "ok" THEN cache ELSE [lb |-> ev.lb, ub |-> ev.ub])
+               ELSE IF t.prop # "C09" \/ ev.ko = cache.ko THEN cache
+               ELSE [ko |-> ev.ko, F |-> Feasible(KnockOut(t.M, MaskSet(ev.ko)))]
+         j == IF t.prop = "C18" THEN (IF ev.k = "minmed" THEN JudgeMinMed(t.M, ev, base.F) ELSE JudgeMed(t.M, ev, cache))
+              ELSE Judge(t, ev, c2.F, base) IN
+     /\ cache' = c2
      /\ (j.scope = "out") => PrintT(ToJson([verdict |-> "OUTSCOPE", tid |-> t.tid, l |-> l + 1, action |-> ev.k]))
      /\ (j.scope = "in" /\ ~j.decided) => PrintT(ToJson([verdict |-> "UNDECIDED", tid |-> t.tid, l |-> l + 1, action |-> ev.k]))
      /\ (j.fails # {}) =>
           PrintT(ToJson([verdict |-> "MISMATCH", tid |-> t.tid, l |-> l + 1, action |-> ev.k, clauses |-> j.fails,
-                         tags |-> j.tags, exp |-> j.exp, outcome |-> ev.outcome, status |-> ev.status, obs |-> ev.obj]))
+                         tags |-> j.tags, exp |-> j.exp, outcome |-> ev.outcome]))
   /\ l' = l + 1
   /\ tid' = tid
+  /\ base' = base
 =============================================================================
